@@ -113,7 +113,11 @@ PROPS["C07"] = {
             "HttpReader from a scripted raw-TCP server that logs every Range header; requests compared with the model and with "
             "independently computed maximal runs; CLI clones over http with seeds/in-place compared with the expected runs. "
             "non-trivial = >= 2 requests",
-    "assumes": ["reqwest/hyper/TCP deliver what the scripted server sends (black box between script and state machine)"],
+    "assumes": ["reqwest/hyper/TCP deliver what the scripted server sends (black box between script and state machine)",
+                "end-to-end request theorems: no chunk is stored as zero bytes (a zero-sized range is completed without a request; "
+                "computed counterexample in Proofs/CloneHttp.v); exactness of delivered bytes is stated for servers that answer "
+                "with bytes of the requested range (a server sending MORE than asked makes the next chunk wrong: "
+                "extra_bytes_counterexample -- the clone is protected by the hash check, C04)"],
     "trusted_base": [],
     "level_text": "Theorem C07_requests_are_maximal_runs (Coq): for every archive, chunk list and retry budget, without transfer "
                   "failures the request sequence of the ChunkReader model is exactly one request per maximal run of adjacent "
